@@ -219,7 +219,76 @@ fn main() {
             cx.mirror::<i64>("i64", &name, &d, false);
         }
     });
+    // ---- (c) long histories: one path of up to 61 moves from a small diagram ---------------------------
+    // Every kink type in turn on edges spread over the diagram (R1), and for braids cancelling pairs
+    // plus Markov stabilisations; the library's tables at the checkpoints (31, 32, 33, 34, 40, 48, 63
+    // and 64 crossings - around the 32-bit and 64-bit boundaries of the crossing-state words) must equal
+    // the table of the starting diagram.  The move graph above only has paths of length <= 2.
+    {
+        let bases: Vec<(String, Diagram)> = vec![
+            ("trefoil".into(), braid_closure(2, &[1, 1, 1]).unwrap()),
+            ("figure8".into(), braid_closure(3, &[1, -2, 1, -2]).unwrap()),
+            ("hopf".into(), braid_closure(2, &[1, 1]).unwrap()),
+        ];
+        let checkpoints: &[usize] = if th { &[16, 31, 32, 33, 34, 40, 48, 56, 63, 64] } else { &[31, 32, 33, 34, 64] };
+        run.par_for(bases.len() * 2, |bi| {
+            let (name, d0) = &bases[bi / 2];
+            let mirrored = bi % 2 == 1;
+            let d0 = if mirrored { d0.mirror() } else { d0.clone() };
+            let name = format!("long:{name}{}", if mirrored { ":mirror" } else { "" });
+            let mut d = d0.clone();
+            let mut step = 0usize;
+            while d.n < 64 {
+                step += 1;
+                let outs = d.out_darts();
+                let e = (step * 7) % outs.len();
+                d = d.r1(outs[e], step % 2 == 0, (step / 2) % 2 == 0);
+                if checkpoints.contains(&d.n) {
+                    run.add("long_history_checkpoints", 1);
+                    let mv = format!("{}-kinks", d.n - d0.n);
+                    cx.edge::<i64>("i64", &name, &d0, &mv, &d, false);
+                    cx.edge::<FF2>("FF2", &name, &d0, &mv, &d, false);
+                    if d0.components().len() == 1 {
+                        cx.edge::<i64>("i64", &name, &d0, &mv, &d, true);
+                    }
+                    if d.n == 33 || d.n == 64 {
+                        cx.mirror::<i64>("i64", &format!("{name}:{mv}"), &d, false);
+                    }
+                }
+            }
+        });
+        // braids: sigma sigma^-1 insertions and Markov stabilisations up to 34 (thorough 48) letters
+        let target = if th { 48 } else { 34 };
+        run.par_for(2, |k| {
+            let (mut s, mut w): (usize, Vec<i32>) = if k == 0 { (2, vec![1, 1, 1]) } else { (3, vec![1, -2, 1, -2]) };
+            let d0 = braid_closure(s, &w).unwrap();
+            let name = format!("long:braid{}:{:?}", s, w).replace(' ', "");
+            let mut step = 0usize;
+            while w.len() < target {
+                step += 1;
+                if step % 5 == 0 {
+                    // Markov stabilisation
+                    w.push(if step % 2 == 0 { s as i32 } else { -(s as i32) });
+                    s += 1;
+                } else {
+                    let g = (1 + step % (s - 1)) as i32;
+                    let pos = (step * 3) % (w.len() + 1);
+                    let (a, b) = if step % 2 == 0 { (g, -g) } else { (-g, g) };
+                    w.insert(pos, b);
+                    w.insert(pos, a);
+                }
+                if [31, 32, 33, 34, 40, 48].contains(&w.len()) || w.len() == target {
+                    if let Some(d) = braid_closure(s, &w) {
+                        run.add("long_history_checkpoints", 1);
+                        cx.edge::<i64>("i64", &name, &d0, &format!("{}-letters", w.len()), &d, false);
+                        cx.edge::<FF2>("FF2", &name, &d0, &format!("{}-letters", w.len()), &d, true);
+                    }
+                }
+            }
+        });
+    }
     let coverage = json!({
+        "long_history_checkpoints": run.get("long_history_checkpoints"),
         "states": run.get("diagrams") + run.get("braid_words"),
         "transitions": run.get("move_edges"),
         "traces_validated_against_impl": run.get("evaluations"),
